@@ -101,6 +101,15 @@ FN('try_parse_response', props=['C05', 'C11', 'C20', 'C12', 'C01'], ret='r',
    )
 
 RAW('''
+/// fields that httparse reports (token names, valid value bytes) with names shorter than 64 KiB always build
+pub proof fn lemma_build_fields_ok(fields: Seq<PField>, k: int)
+    requires k <= fields.len(),
+        forall|i: int| 0 <= i < fields.len() ==> crate::http::is_token((#[trigger] fields[i]).name) && 0 < fields[i].name.len() < 65536 && valid_value(fields[i].value)
+    ensures build_fields(fields, k) is Ok
+    decreases k
+{
+    if k > 0 { lemma_build_fields_ok(fields, k - 1); }
+}
 pub proof fn lemma_nonempty_prefix_le(fields: Seq<PField>, k: int)
     ensures nonempty_prefix(fields, k) <= (if k < 0 { 0 } else { k }), nonempty_prefix(fields, k) >= 0
     decreases k
